@@ -400,6 +400,9 @@ def main(argv=None):
         run.run_e3()
     else:
         run.partial = True
+    if os.environ.get("VERIF_REPO") and os.path.realpath(os.environ["VERIF_REPO"]) != os.path.realpath("/repo"):
+        # a run against another checkout (seed evaluation, mutants): its results must not replace the evidence of /repo
+        run.partial = True
     return run.finish()
 
 
